@@ -133,11 +133,15 @@ impl World {
                 AcceptPolicy::Never => {}
                 pol => {
                     let limit = if let AcceptPolicy::Count(n) = pol { Some(*n as usize) } else { None };
+                    let late = if let AcceptPolicy::AfterWake(n) = pol { Some(*n) } else { None };
                     let (log, parking, sp2, keep2) = (log.clone(), parking.clone(), sp.clone(), keep.clone());
                     let specs = case.streams.clone();
                     let m = mux.clone();
                     sp.spawn(format!("accept{side}"), TaskKind::MuxUser(side), async move {
                         let mut n = 0;
+                        if let Some(w) = late {
+                            parking.park(w).await;
+                        }
                         loop {
                             if limit.is_some_and(|l| n >= l) {
                                 return;
